@@ -28,6 +28,7 @@ import (
 // Op is one action of the scripted upstream handler.
 //
 //	set/add/del  header operation on w.Header()
+//	nil          w.Header()[CanonicalHeaderKey(K)] = nil: the key present with no value (suppresses an automatic header)
 //	wh           w.WriteHeader(Code)
 //	w            w.Write(bytes): Hex when given, otherwise Len bytes derived from Seed (Kind 0 random, 1 text)
 //	fl           if f, ok := w.(http.Flusher); ok { f.Flush() } — whatever writer the handler was given
@@ -149,6 +150,8 @@ func script(in *In, chunks [][]byte, up *bytes.Buffer, nw *int, probe *bool, mir
 				w.Header().Add(o.K, o.V)
 			case "del":
 				w.Header().Del(o.K)
+			case "nil":
+				w.Header()[http.CanonicalHeaderKey(o.K)] = nil
 			case "wh":
 				w.WriteHeader(o.Code)
 			case "fl":
@@ -421,7 +424,7 @@ func prepare(in *In) ([][]byte, error) {
 	total := 0
 	for _, o := range in.Ops {
 		switch o.Op {
-		case "set", "add", "del":
+		case "set", "add", "del", "nil":
 			if !validToken(o.K) || !validValue(o.V) {
 				return nil, fmt.Errorf("header op %q %q", o.K, o.V)
 			}
